@@ -115,9 +115,17 @@ def run(seed, tier, replay=None):
     drv = C.Driver()
     if replay is not None:
         v = replay.get("violation", replay)
-        cases = [v["input"]["case"] if "case" in v.get("input", {}) else v["input"]]
-        tasks = [dict(case=cases[0], mode="stub", policy=v.get("input", {}).get("policy"), n_theta=6, seed=0)]
-        real_tasks = []
+        vin = v.get("input", {})
+        cases, tasks, real_tasks = [], [], []
+        if "truth" in vin:
+            real_tasks = [dict(case=vin["case"], mode="real", n_theta=0, seed=0, gen_seed=vin["gen_seed"], truth=vin["truth"])]
+        else:
+            cases = [vin["case"]]
+            pol = vin.get("policy") or gen_policy(rng, cases[0])
+            for p_ in pol:
+                if isinstance(p_["fun"], str) and p_["fun"] != "true":
+                    p_["fun"] = float(p_["fun"])
+            tasks = [dict(case=cases[0], mode="stub", policy=pol, n_theta=6, seed=0, gen_seed=0)]
     else:
         n_quad, n_noisy = (520, 170) if tier == "quick" else (6000, 1500)
         cases = gen_cases(rng, n_quad, n_noisy)
@@ -241,6 +249,13 @@ def run(seed, tier, replay=None):
                 rep.case(("objective", ci, pi, j), sample=dict(op="objective", case=case, theta=th, code=fc, model=fm, spec=fs))
                 ok_spec = F.rel_close(fc, fs)
                 ok_model = fm is not None and F.rel_close(fc, fm)
+                if not ok_spec and all(isinstance(x, float) and math.isfinite(x) for x in (fc, fs)) \
+                        and math.isfinite(sp["scale"][j]) and abs(fc - fs) <= 1e-7 * sp["scale"][j] \
+                        and max(abs(fc), abs(fs)) <= 1e-6 * sp["scale"][j]:
+                    # the value is a cancellation of terms a million times larger: 1e-7 relative to the value
+                    # is below the rounding noise of the sum itself
+                    rep.skip("objective_is_a_cancellation_to_zero(compared_relative_to_the_sum_of_|terms|)")
+                    continue
                 if ok_spec:
                     if not ok_model:
                         if inside:
